@@ -18,17 +18,20 @@
 (*     replays the maximal ones against real processes.                                            *)
 EXTENDS CfgStore, Json, FiniteSetsExt, SequencesExt
 
-CONSTANTS InitCfgs,    \* what the files may hold at the start
+CONSTANTS GenFlush,    \* generator only: the prefixes (in units) that may reach the disk before the close
+          WarmReads,   \* generator only: may process 2 read before the write begins (a reader that lives through it)
+          InitCfgs,    \* what the files may hold at the start
           WriteCfgs,   \* what may be written
           MaxBegin, MaxRead, MaxSpawn, MaxCrash
 
-VARIABLES cnt, hist, d0
-vars == <<disk, proc, S, maybe, view, out, cnt, hist, d0>>
+VARIABLES cnt, hist, d0, taint   \* taint (generator only): why a file is torn at the moment, "none" if none is
+vars == <<disk, proc, S, maybe, view, out, cnt, hist, d0, taint>>
 
 Init == /\ CInitWith(InitCfgs)
         /\ cnt = [begin |-> 0, read |-> 0, spawn |-> 0, crash |-> 0]
         /\ hist = <<>>
         /\ d0 = disk
+        /\ taint = "none"
 
 Bump(f) == cnt' = [cnt EXCEPT ![f] = @ + 1]
 \* processes are interchangeable: number them in the order they are first started
@@ -43,7 +46,7 @@ AFlush(p, k) == WFlush(p, k) /\ cnt' = cnt
 AClose(p)    == WClose(p) /\ cnt' = cnt
 AFail(p)     == WFail(p) /\ cnt' = cnt
 
-Quiet == UNCHANGED <<hist, d0>>
+Quiet == UNCHANGED <<hist, d0, taint>>
 MCSpawn == \E p \in Procs : ASpawn(p) /\ Quiet
 MCCrash == \E p \in Procs : ACrash(p) /\ Quiet
 MCRead  == \E p \in Procs : ARead(p) /\ Quiet
@@ -57,21 +60,52 @@ NextMCBad == NextMC \/ MCFail
 
 \* ---- generator ------------------------------------------------------------------------------------
 Ev(e) == hist' = Append(hist, e) /\ d0' = d0
-ReadEv(p) == [op |-> "read", p |-> p, adm |-> SetToSeq(out'.adm),
+Same  == taint' = taint
+CrashName(k)   == IF k = "truncated" THEN "crash_truncated" ELSE IF k = "partial" THEN "crash_partial" ELSE "none"
+BetweenName(k) == IF k = "truncated" THEN "between_truncated" ELSE IF k = "partial" THEN "between_partial" ELSE "none"
+\* the fault class under which a read happens: a live writer in the middle of its write, or what tore the file earlier
+LiveTorn == {TornKind(q) : q \in {q \in Procs : proc[q].alive}} \ {"none"}
+FaultNow == IF LiveTorn # {} THEN BetweenName(CHOOSE k \in LiveTorn : TRUE) ELSE taint
+
+ReaderKind(p) == IF proc[p].cached THEN (IF cnt.begin > 0 /\ p = 1 THEN "writer" ELSE "warm") ELSE "fresh"
+ReadEv(p) == [op |-> "read", p |-> p, adm |-> SetToSeq(out'.adm), fault |-> FaultNow, reader |-> ReaderKind(p),
               mech |-> [ok |-> IF out'.ok THEN 1 ELSE 0, cfg |-> out'.cfg]]
+\* ---- all fault classes at once, each read labelled with the class it happens under ----------------------
+\* (MC_CfgStore_faults.cfg, NEXT NextFaults, run with -continue: reads under "none" satisfy the law,
+\*  and for every fault class there is a read that does not)
+FSpawn == \E p \in Procs : ASpawn(p) /\ Same /\ UNCHANGED <<hist, d0>>
+FCrash == \E p \in Procs : ACrash(p) /\ UNCHANGED <<hist, d0>>
+                            /\ taint' = IF TornKind(p) = "none" THEN taint ELSE CrashName(TornKind(p))
+FRead  == \E p \in Procs : ARead(p) /\ Same /\ UNCHANGED <<hist, d0>>
+FBegin == \E p \in Procs, c \in WriteCfgs : ABegin(p, c) /\ Same /\ UNCHANGED <<hist, d0>>
+FOpen  == \E p \in Procs : AOpen(p) /\ Same /\ UNCHANGED <<hist, d0>>
+FFlush == \E p \in Procs, k \in 1..(Len(KeyOrd) + 2) : AFlush(p, k) /\ Same /\ UNCHANGED <<hist, d0>>
+FClose == \E p \in Procs : AClose(p) /\ taint' = "none" /\ UNCHANGED <<hist, d0>>
+FFail  == \E p \in Procs : AFail(p) /\ taint' = "bad_value" /\ UNCHANGED <<hist, d0>>
+NextFaults == FSpawn \/ FCrash \/ FRead \/ FBegin \/ FOpen \/ FFlush \/ FClose \/ FFail
+\* a read changes neither the disk nor who is in the middle of a write: FaultNow after it = before it
+RL(f) == (out.kind = "read" /\ FaultNow = f) => (out.ok /\ out.cfg \in out.adm)
+RL_none              == RL("none")
+RL_crash_truncated   == RL("crash_truncated")
+RL_crash_partial     == RL("crash_partial")
+RL_between_truncated == RL("between_truncated")
+RL_between_partial   == RL("between_partial")
+RL_bad_value         == RL("bad_value")
+
 \* the generator does not explore every interleaving (the model checker does): one writer (process 1),
 \* the text reaches the disk in at most one piece before the close, a process does not read twice in
 \* a row, and before the write begins only process 2 reads (a reader that lives through the write)
 LastIsReadBy(p) == hist # <<>> /\ hist[Len(hist)].op = "read" /\ hist[Len(hist)].p = p
 Begun == cnt.begin > 0
-GSpawn == \E p \in Procs : ASpawn(p) /\ Ev([op |-> "spawn", p |-> p])
-GCrash == \E p \in Procs : ACrash(p) /\ Begun /\ Ev([op |-> "crash", p |-> p, torn |-> TornKind(p)])
-GRead  == \E p \in Procs : ARead(p) /\ ~LastIsReadBy(p) /\ (Begun \/ p # 1) /\ Ev(ReadEv(p))
-GBegin == \E c \in WriteCfgs : ABegin(1, c) /\ Ev([op |-> "begin", p |-> 1, cfg |-> c])
-GOpen  == \E p \in Procs : AOpen(p) /\ Ev([op |-> "open", p |-> p, path |-> proc[p].path])
-GFlush == \E p \in Procs, k \in 1..(Len(KeyOrd) + 2) : proc[p].flushed = 0 /\ AFlush(p, k) /\ Ev([op |-> "flush", p |-> p, k |-> k])
-GClose == \E p \in Procs : AClose(p) /\ Ev([op |-> "close", p |-> p])
-GFail  == \E p \in Procs : AFail(p) /\ Ev([op |-> "fail", p |-> p])
+GSpawn == \E p \in Procs : ASpawn(p) /\ Ev([op |-> "spawn", p |-> p]) /\ Same
+GCrash == \E p \in Procs : /\ ACrash(p) /\ Begun /\ Ev([op |-> "crash", p |-> p, torn |-> TornKind(p)])
+                            /\ taint' = IF TornKind(p) = "none" THEN taint ELSE CrashName(TornKind(p))
+GRead  == \E p \in Procs : ARead(p) /\ ~LastIsReadBy(p) /\ (Begun \/ (p # 1 /\ WarmReads)) /\ Ev(ReadEv(p)) /\ Same
+GBegin == \E c \in WriteCfgs : ABegin(1, c) /\ Ev([op |-> "begin", p |-> 1, cfg |-> c]) /\ Same
+GOpen  == \E p \in Procs : AOpen(p) /\ Ev([op |-> "open", p |-> p, path |-> proc[p].path]) /\ Same
+GFlush == \E p \in Procs, k \in GenFlush : proc[p].flushed = 0 /\ AFlush(p, k) /\ Ev([op |-> "flush", p |-> p, k |-> k]) /\ Same
+GClose == \E p \in Procs : AClose(p) /\ Ev([op |-> "close", p |-> p]) /\ taint' = "none"
+GFail  == \E p \in Procs : AFail(p) /\ Ev([op |-> "fail", p |-> p]) /\ taint' = "bad_value"
 \* the print comes first: once per expanded state
 NextGen == /\ PrintT(ToJson([init |-> d0, hist |-> hist, disk |-> disk]))
            /\ (GSpawn \/ GCrash \/ GRead \/ GBegin \/ GOpen \/ GFlush \/ GClose \/ GFail)
@@ -85,6 +119,13 @@ AllWrite == WCfgs
 FewCfgs  == {Empty, << <<KeyOrd[1], 1>> >>, << <<KeyOrd[1], 2>>, <<KeyOrd[2], 1>> >>}
 FewWrite == {<< <<KeyOrd[1], 1>>, <<KeyOrd[2], 2>> >>, << <<KeyOrd[2], 2>> >>, Empty}
 BadWrite == FewWrite \cup {<< <<KeyOrd[1], 1>>, <<KeyOrd[2], Bad>> >>, << <<KeyOrd[1], Bad>> >>}
+
+GenInit  == {<< <<KeyOrd[1], 2>>, <<KeyOrd[2], 1>> >>}
+GenWrite == {<< <<KeyOrd[1], 1>>, <<KeyOrd[2], 2>> >>, << <<KeyOrd[2], 2>> >>, Empty, << <<KeyOrd[1], 1>>, <<KeyOrd[2], Bad>> >>}
+TwoInit  == {<< <<KeyOrd[1], 1>> >>, << <<KeyOrd[1], 2>>, <<KeyOrd[2], 2>> >>}
+OneInit  == {<< <<KeyOrd[1], 2>>, <<KeyOrd[2], 2>> >>}
+TwoWrite == {<< <<KeyOrd[1], 1>>, <<KeyOrd[2], 1>> >>, << <<KeyOrd[2], 2>> >>}
+TwoBadWrite == TwoWrite \cup {<< <<KeyOrd[1], 1>>, <<KeyOrd[2], Bad>> >>}
 
 \* a generated history is a history of the specification
 GenIsSpec == [][CNextWith(WriteCfgs)]_cvars
